@@ -707,6 +707,33 @@ example : times_rise_transit_set 0 60 0 80 0 80 0 80 0 0 0 = .ok none := by
     mul_nonneg (mul_pos hcφ hcδ).le (by linarith)
   nlinarith
 
+/-- The `sin h0` term of the circumpolar test matters: at latitude 60° a body at declination 29.8° with
+    the standard altitude −0.5667° of a star never sets (no times), although the textbook shortcut
+    `tan φ · tan δ > 1` (which ignores `h0`) says it does: here `sin φ sin δ < cos φ cos δ`. -/
+example : times_rise_transit_set 0 60 0 29.8 0 29.8 0 29.8 (-0.5667) 0 0 = .ok none ∧
+    Real.sin (60 * (Real.pi / 180)) * Real.sin (29.8 * (Real.pi / 180)) <
+      Real.cos (60 * (Real.pi / 180)) * Real.cos (29.8 * (Real.pi / 180)) := by
+  have hpi := Real.pi_pos
+  have hcφ : 0 < Real.cos (60 * (Real.pi / 180)) := Real.cos_pos_of_mem_Ioo ⟨by nlinarith, by nlinarith⟩
+  have hcδ : 0 < Real.cos (29.8 * (Real.pi / 180)) := Real.cos_pos_of_mem_Ioo ⟨by nlinarith, by nlinarith⟩
+  -- cos(φ + δ) = cos(89.8°) = sin(0.2°) > 0
+  have hsum : Real.cos (60 * (Real.pi / 180) + 29.8 * (Real.pi / 180)) = Real.sin (0.2 * (Real.pi / 180)) := by
+    rw [show (60 : ℝ) * (Real.pi / 180) + 29.8 * (Real.pi / 180) = Real.pi / 2 - 0.2 * (Real.pi / 180) by ring,
+      Real.cos_pi_div_two_sub]
+  have hpos : 0 < Real.sin (0.2 * (Real.pi / 180)) := Real.sin_pos_of_pos_of_lt_pi (by positivity) (by nlinarith)
+  rw [Real.cos_add] at hsum
+  refine ⟨?_, by linarith⟩
+  rw [rts_none_iff_never_reaches _ _ _ _ _ _ _ _ _ _ _ (by norm_num) (by norm_num)]
+  intro H
+  unfold Spec.SunEvents.sinAltitude
+  have hc := Real.neg_one_le_cos H
+  have hlt : Real.sin (-0.5667 * (Real.pi / 180)) < Real.sin (-(0.2 * (Real.pi / 180))) := by
+    apply Real.sin_lt_sin_of_lt_of_le_pi_div_two <;> nlinarith
+  rw [Real.sin_neg] at hlt
+  have : 0 ≤ Real.cos (60 * (Real.pi / 180)) * Real.cos (29.8 * (Real.pi / 180)) * (Real.cos H + 1) :=
+    mul_nonneg (mul_pos hcφ hcδ).le (by linarith)
+  nlinarith
+
 example : times_rise_transit_set 0 60 0 0 0 0 0 0 0 0 0 ≠ .ok none := by
   rw [Ne, rts_none_iff_never_reaches _ _ _ _ _ _ _ _ _ _ _ (by norm_num) (by norm_num)]
   intro h
